@@ -646,7 +646,14 @@ func (ndb *nodeDB) DeleteVersionsFrom(fromVersion int64) error {
 	}
 
 	// Delete the nodes for new format
-	if err = ndb.deleteRange(nodeKeyPrefixFormat.KeyInt64(fromVersion), nodeKeyPrefixFormat.KeyInt64(latest+1), ndb.batch.Delete); err != nil {
+	newFormatFrom := fromVersion
+	if legacyLatestVersion > 0 && legacyLatestVersion >= dumpFromVersion-1 {
+		// No new-format version remains. What is left in the new format are copies of legacy roots
+		// that a new version had referenced, stored under their own (older) node version: they
+		// would be taken for the latest version after a restart and hide the legacy versions above them.
+		newFormatFrom = 0
+	}
+	if err = ndb.deleteRange(nodeKeyPrefixFormat.KeyInt64(newFormatFrom), nodeKeyPrefixFormat.KeyInt64(latest+1), ndb.batch.Delete); err != nil {
 		return err
 	}
 
